@@ -367,8 +367,10 @@ class PseudotrajCheck(Check):
             uni = w.pt_universe
             if len(uni.trajectory) != len(rows):
                 raise Violation("frame-count", f"PtWriter universe has {len(uni.trajectory)} frames for {len(rows)} rows")
-            if list(uni.atoms.names) != names:
-                raise Violation("atom-order", f"PtWriter universe atoms {list(uni.atoms.names)} != {names}")
+            types = list(u1.atoms.types) + list(u2.atoms.types)
+            if list(uni.atoms.names) != names or list(uni.atoms.types) != types:
+                raise Violation("atom-order", f"PtWriter universe atoms {list(uni.atoms.names)} / "
+                                              f"{list(uni.atoms.types)} != {names} / {types}")
             for k in range(len(rows)):
                 with lib_call(f"pt_universe.trajectory[{k}]"):
                     uni.trajectory[k]
